@@ -128,6 +128,18 @@ FullVerifyOK(c) ==
     /\ InRange(m, Len(VKeys(c)))
     /\ SigValid(c)
 
+\* ThresholdVerify(thr) and Keys() of the final value
+ThresholdOK(c) == Cardinality(FinalMask(c)) >= c.thr
+
+\* The verdict of FullVerify is a function of (signature bytes, mask, key vector, threshold, message)
+\* -- FullVerifyOK(c) above -- and of nothing else: a CosiSignature VALUE that was verified, queried
+\* (Keys, ThresholdVerify), aggregated into or copied before its exported fields were rewritten gives
+\* the verdict of a fresh value with the same fields.  BackCase(c) is the run in which the final form
+\* was verified first and the value then restored to the aggregated signature and mask and verified
+\* with the signing key vector and message.
+BackCase(c) == [c EXCEPT !.form = [op |-> "agg", i |-> 0], !.vmsg = "same",
+                         !.vkeys = [op |-> "same", i |-> 0, j |-> 0]]
+
 (* ------------------------- the property (C13) -------------------------- *)
 AllGood(c) == \A i \in c.cm : ShareKind(c, i) = "Good"
 Honest(c) == /\ ChallengeOK(c) /\ AllGood(c) /\ c.dom.op = "exact" /\ c.form.op = "agg"
